@@ -232,6 +232,9 @@ func (t *Tx) Rollback() error {
 
 func (t *Tx) ev(op string, b string) Ev {
 	e := Ev{"op": op, "b": b}
+	if t.S.Opt.EntryIdxMode == nutsdb.HintBPTSparseIdxMode {
+		e["sparse"] = true
+	}
 	if t.Fin {
 		e["fin"] = true
 	}
